@@ -193,6 +193,28 @@ func runR05_1(c *Ctx, r *R) {
 		r.Unk("api-types", 0, "types.Message / writer.FieldWriter / root package not found")
 		return
 	}
+	// non-scalar kinds: which reader of the dynamic API the accessor goes through. A value handed to the user as
+	// it is (any) must be the field's own bytes - Field(tag) = OpenValue - not FieldRaw(tag), which is the whole data
+	// prefix up to the field's end and is only meant to be fed to a decoder that reads from the end.
+	for _, nk := range []struct{ kind, must, why string }{
+		{"KindAny", "return m.msg.Field(%d)", "an any field is returned as spec.Value: it must be exactly the field's bytes, as the dynamic Field(tag) returns them"},
+		{"KindAnyMessage", "return m.msg.Field(%d).Message()", "an any-message field is opened from the field's own bytes"},
+		{"KindList", "m.msg.List(%d)", "a list field is read through Message.List(tag)"},
+		{"KindMessage", "m.msg.Message(%d)", "a message field is read through Message.Message(tag)"},
+	} {
+		key := "generator/reader:" + nk.kind
+		found := false
+		for _, lit := range reader[nk.kind] {
+			if lit == nk.must || (strings.Contains(nk.must, "m.msg.") && !strings.HasPrefix(nk.must, "return") && strings.Contains(lit, nk.must)) {
+				found = true
+			}
+		}
+		if found {
+			r.OK(key, 0, "%s", nk.why)
+		} else {
+			r.Bad(key, 0, "the accessor template for %s is %q, expected %q: %s - generated code and the dynamic tag-based API are no longer interchangeable on the same bytes", nk.kind, reader[nk.kind], nk.must, nk.why)
+		}
+	}
 	for _, N := range scalarKinds {
 		K := "Kind" + N
 		refName := one(tRef, K)
